@@ -7,6 +7,9 @@ def step (line : String) : String :=
   | "c17.run" :: args => handleRun args
   | "c17.spec" :: args => handleSpec args
   | "c17.argclass" :: args => handleArgClass args
+  | "c17.canon" :: args => handleCanon args
+  | "c17.ziplist" :: args => handleZipList false args
+  | "c17.zipfirst" :: args => handleZipList true args
   | _ => "bad-op"
 
 partial def loop (h : IO.FS.Stream) (out : IO.FS.Stream) : IO Unit := do
